@@ -20,7 +20,8 @@ Inductive fate :=
 Inductive aop :=
 | ARecv (addr n : Z) (fates : list fate)      (* receive_datagram(data, addr) with len(data) = n *)
 | ASend (mf : option Z) (ops : list op)       (* datagrams_to_send, normal branch: builder ops, then flush *)
-| AClose (ops : list op).                     (* datagrams_to_send with _close_pending: no budgets are set *)
+| AClose (ops : list op)                      (* datagrams_to_send with _close_pending: no budgets are set *)
+| ATerm.                                      (* idle timeout / close received: the connection enters an END state *)
 
 Fixpoint find_path (addr : Z) (ps : list path) : option path :=
   match ps with
@@ -106,47 +107,58 @@ Definition round_lens (a : acfg) (mf mt : option Z) (ops : list op) : list Z :=
   let c := mkCfg (a_client a) (a_mds a) (a_peer a) (a_host a) (a_token a) mf mt in
   snd (run c (init_st c 0) (ops ++ [OpFlush])).
 
-Definition astep (a : acfg) (ps : list path) (o : aop) : list path :=
+(* connection state relevant here: the registered paths and whether the connection has entered an END state
+   (after the _close_pending round: datagrams_to_send returns [] and receive_datagram returns at once) *)
+Record ast := mkAst { as_paths : list path; as_closed : bool }.
+
+Definition astep (a : acfg) (s : ast) (o : aop) : ast :=
+  if as_closed s then s else
+  let ps := as_paths s in
   match o with
-  | ARecv addr n fs => recv ps addr n fs
-  | ASend mf ops => send_lens ps (round_lens a mf (budget ps) ops)
-  | AClose ops => send_lens ps (round_lens a None None ops)
+  | ARecv addr n fs => mkAst (recv ps addr n fs) false
+  | ASend mf ops => mkAst (send_lens ps (round_lens a mf (budget ps) ops)) false
+  | AClose ops => mkAst (send_lens ps (round_lens a None None ops)) true
+  | ATerm => mkAst ps true
   end.
 
-Fixpoint arun (a : acfg) (ps : list path) (l : list aop) : list path :=
-  match l with [] => ps | o :: t => arun a (astep a ps o) t end.
+Fixpoint arun (a : acfg) (s : ast) (l : list aop) : ast :=
+  match l with [] => s | o :: t => arun a (astep a s o) t end.
 
 (* well-formed histories: datagram lengths are non-negative; send rounds obey the caller discipline *)
-Definition aop_ok (a : acfg) (ps : list path) (o : aop) : bool :=
+Definition aop_ok (a : acfg) (s : ast) (o : aop) : bool :=
+  as_closed s ||
   match o with
   | ARecv _ n _ => 0 <=? n
   | ASend mf ops =>
-      let c := mkCfg (a_client a) (a_mds a) (a_peer a) (a_host a) (a_token a) mf (budget ps) in
+      let c := mkCfg (a_client a) (a_mds a) (a_peer a) (a_host a) (a_token a) mf (budget (as_paths s)) in
       disciplined c (init_st c 0) (ops ++ [OpFlush])
-  | AClose _ => true
+  | AClose _ | ATerm => true
   end.
 
-Definition aop_nosample (a : acfg) (ps : list path) (o : aop) : bool :=
+Definition aop_nosample (a : acfg) (s : ast) (o : aop) : bool :=
+  as_closed s ||
   match o with
   | ASend mf ops =>
-      let c := mkCfg (a_client a) (a_mds a) (a_peer a) (a_host a) (a_token a) mf (budget ps) in
+      let c := mkCfg (a_client a) (a_mds a) (a_peer a) (a_host a) (a_token a) mf (budget (as_paths s)) in
       nosample c (init_st c 0) (ops ++ [OpFlush])
   | _ => true
   end.
 
 Definition is_close (o : aop) : bool := match o with AClose _ => true | _ => false end.
 
-Fixpoint aok (a : acfg) (ps : list path) (l : list aop) : bool :=
-  match l with [] => true | o :: t => aop_ok a ps o && aok a (astep a ps o) t end.
-Fixpoint anosample (a : acfg) (ps : list path) (l : list aop) : bool :=
-  match l with [] => true | o :: t => aop_nosample a ps o && anosample a (astep a ps o) t end.
+Fixpoint aok (a : acfg) (s : ast) (l : list aop) : bool :=
+  match l with [] => true | o :: t => aop_ok a s o && aok a (astep a s o) t end.
+Fixpoint anosample (a : acfg) (s : ast) (l : list aop) : bool :=
+  match l with [] => true | o :: t => aop_nosample a s o && anosample a (astep a s o) t end.
 
 (* ---------- executable interface (ledger bookkeeping only; send rounds are given by their observed
    datagram lengths) -------------------------------------------------------------------------
    input: k (addr recv sent valid)*k   then ops
      0 addr n  m (fate)*m     fate = 0 | 2 | 1 hs promote (0 | 1 addr)
-     1 m len*m                a send round that returned datagrams of these lengths
-   output per op: budget before the op (0 | 1 v), then the path list: k (addr recv sent valid)*k *)
+     1 m len*m                a send round (budgeted branch) that returned datagrams of these lengths
+     2 m len*m                a send round taken through the _close_pending branch
+     3                        the connection terminated (ConnectionTerminated event)
+   output per op: for op 1 the budget configured (0 | 1 v), then the path list: k (addr recv sent valid)*k *)
 Definition out_paths (ps : list path) : list Z :=
   Zlen ps :: flat_map (fun p => [pa_addr p; pa_recv p; pa_sent p; b2z (pa_valid p)]) ps.
 
@@ -170,23 +182,28 @@ Fixpoint rd_paths (n : nat) (t : list Z) : list path * list Z :=
     end
   end.
 
-Fixpoint exec_aops (fuel : nat) (ps : list path) (t : list Z) : list Z :=
+Fixpoint exec_aops (fuel : nat) (ps : list path) (closed : bool) (t : list Z) : list Z :=
   match fuel with O => [] | S fuel =>
   match t with
   | 0 :: addr :: n :: m :: r =>
       let '(fs, r) := rd_fates (Z.to_nat m) r in
-      let ps' := recv ps addr n fs in
-      out_opt (budget ps) ++ out_paths ps' ++ exec_aops fuel ps' r
+      let ps' := if closed then ps else recv ps addr n fs in
+      out_paths ps' ++ exec_aops fuel ps' closed r
   | 1 :: r =>
       let '(lens, r) := tk_list r in
-      let ps' := send_lens ps lens in
-      out_opt (budget ps) ++ out_paths ps' ++ exec_aops fuel ps' r
+      let ps' := if closed then ps else send_lens ps lens in
+      out_opt (budget ps) ++ out_paths ps' ++ exec_aops fuel ps' closed r
+  | 2 :: r =>
+      let '(lens, r) := tk_list r in
+      let ps' := if closed then ps else send_lens ps lens in
+      out_paths ps' ++ exec_aops fuel ps' true r
+  | 3 :: r => exec_aops fuel ps true r
   | _ => []
   end end.
 
 (* EXTRACT: exec_amplification *)
 Definition exec_amplification (toks : list Z) : list Z :=
   match toks with
-  | k :: r => let '(ps, r) := rd_paths (Z.to_nat k) r in exec_aops (length r) ps r
+  | k :: r => let '(ps, r) := rd_paths (Z.to_nat k) r in exec_aops (length r) ps false r
   | [] => []
   end.
